@@ -141,15 +141,17 @@ func ViewMatrix() *m.Design {
 	tree := &m.UserType{Name: "Tree", Var: "vtree", Result: true, Identifier: "application/vnd.matrix.tree",
 		// l4 carries a view at the type level (Attribute("l4", Leaf, func(){ View("tiny") })):
 		// views that list them without an override inherit it, views may override it, also back to "default"
-		Attr: obj(fld("title", str(), true), fld("l1", m.UserRef("Leaf"), false), fld("l2", m.UserRef("Leaf"), false), fld("l3", m.UserRef("Leaf"), false), fld("many", arr(m.UserRef("Leaf")), false),
+		// code is required and left out of the views "rev" and "one": what a view leaves out is not required of its rendering
+		Attr: obj(fld("title", str(), true), fld("code", str(), true), fld("l1", m.UserRef("Leaf"), false), fld("l2", m.UserRef("Leaf"), false), fld("l3", m.UserRef("Leaf"), false), fld("many", arr(m.UserRef("Leaf")), false),
 			fld("l4", typeLevelView(m.UserRef("Leaf"), "tiny"), false), fld("lots", arr(m.UserRef("Leaf")), false)),
 		Views: []*m.View{
-			{Name: "default", Fields: vf("title", "", "l1", "", "l2", "tiny", "l3", "extended", "many", "", "l4", "", "lots", "")},
-			{Name: "alt", Fields: vf("title", "", "l1", "tiny", "l2", "", "l3", "tiny", "many", "tiny", "l4", "default", "lots", "default")},
+			{Name: "default", Fields: vf("title", "", "code", "", "l1", "", "l2", "tiny", "l3", "extended", "many", "", "l4", "", "lots", "")},
+			{Name: "alt", Fields: vf("title", "", "code", "", "l1", "tiny", "l2", "", "l3", "tiny", "many", "tiny", "l4", "default", "lots", "default")},
 			{Name: "rev", Fields: vf("l3", "extended", "title", "", "l1", "", "l2", "tiny", "lots", "tiny", "l4", "extended")},
 			{Name: "one", Fields: vf("title", "", "l2", "extended", "l4", "")},
 		}}
-	trees := &m.UserType{Name: "TreeCollection", Var: "vtrees", Result: true, CollectionOf: "Tree"}
+	trees := &m.UserType{Name: "TreeCollection", Var: "vtrees", Result: true, CollectionOf: "Tree", Attr: arr(m.UserRef("Tree")),
+		Views: []*m.View{{Name: "default"}, {Name: "alt"}, {Name: "rev"}, {Name: "one"}}}
 	get := func(name, view string, t string) *m.Method {
 		return &m.Method{Name: name, Result: m.UserRef(t), ResultView: view, HTTP: &m.HTTPEndpoint{Routes: []m.Route{{Verb: "GET", Path: "/" + name}}}}
 	}
